@@ -181,18 +181,19 @@ class SyncKill:
                     if torn:
                         self.stats['torn_total'] += 1
                     if bad:
-                        redhash = (self.scn.hashsize or 16) < 16 and dev[0] == 'd' and not torn and a.np == 1
+                        # reduced hash: the open finding needs ONE usable parity level for the stripe: one level and a clean kill, or two
+                        # levels and a kill inside a parity pwrite (the torn block costs the other level)
+                        redhash = (self.scn.hashsize or 16) < 16 and dev[0] == 'd' and ((not torn and a.np == 1) or (torn and a.np == 2 and 'parity' in rep.get('call', '')))
                         if torn and a.np == 1:
                             self.stats['torn_write_np1_unrecoverable'] += 1     # Q-C07: measured, not a violation
-                        elif redhash and not any(k_.get('key') == KEY_REDHASH and k_.get('status') == 'open' and k_.get('property') == 'C07' for k_ in chk.kf):
-                            # reduced hash size: hash_is_zero() is constant 0 (elem.h), the "block was empty" marker of CHG blocks is not
-                            # seen by fix; same root cause as the open F-C05d-reduced-hash-markers-ignored (property C05).  Reported to the
-                            # lead as candidate F-C07-reduced-hash-ignores-empty-marker; counted here until a C07 key is registered
-                            self.stats['reduced_hash_np1_unrecoverable'] += 1
                         else:
+                            if redhash:
+                                # reduced hash size: hash_is_zero() is constant 0 (elem.h), the "block was empty" marker of CHG blocks is
+                                # not seen by fix (open finding, same root as F-C05d-reduced-hash-markers-ignored of C05)
+                                self.stats['reduced_hash_np1_unrecoverable'] += 1
                             # with -h the additions are REP blocks (hash of the new data) instead of CHG/ZERO: the open finding
                             chk.violation('adds_only', 'sync %s(additions only) killed at call %d (%s): after losing %s, fix does not restore the previously synced %s' % (
-                                ' '.join(self.extra) + ' ' if self.extra else '', k, mode, dev, bad[:2]), rep, finding_key=(KEY_PREHASH if '-h' in self.extra else (KEY_REDHASH if (self.scn.hashsize or 16) < 16 else None)) if (dev[0] == 'd' and not torn and a.np == 1) else None)
+                                ' '.join(self.extra) + ' ' if self.extra else '', k, mode, dev, bad[:2]), rep, finding_key=KEY_REDHASH if redhash else ((KEY_PREHASH if '-h' in self.extra else None) if (dev[0] == 'd' and not torn and a.np == 1) else None))
             # 5. the next sync completes and re-establishes the guarantee
             rs = a.run('sync', *self.force)
             if rs.rc != 0:
@@ -987,7 +988,8 @@ def main(tier, replay=None):
     confs = [cf + ((),) for cf in confs] + [('adds', 2, 1, 3, 1, 0, ('-h',)), ('mixed', 3, 2, 1, 1, 0, ('-h', '-G'))][:1 if quick else 2]
     # version 3 content files (split parity / reduced hash size) with additions that fit inside the existing parity: nothing but
     # the additions asks for the content save that precedes the sync loop
-    confs += [('addsfit', 2, 1, 3, 1, 0, ('splits=2',)), ('addsfit', 2, 1, 1, 1, 0, ('hashsize=8',))]
+    # (reduced hash, one parity: the open finding F-C07-reduced-hash-ignores-empty-marker; with two parity levels the clause must hold)
+    confs += [('addsfit', 2, 1, 3, 1, 0, ('splits=2',)), ('addsfit', 2, 1, 1, 1, 0, ('hashsize=8',)), ('addsfit', 2, 2, 3, 1, 0, ('hashsize=8', 'splits=2'))]
     if not quick:
         confs += [('addsfit', 3, 2, 8, 2, 0, ('splits=2', 'hashsize=12')), ('adds', 2, 1, 3, 1, 0, ('splits=2',)), ('addsfit', 2, 2, 3, 1, 4, ('splits=2',))]
     for (name, nd, np_, cache, ncontent, autosave_at, extra) in confs:
@@ -1050,7 +1052,7 @@ def main(tier, replay=None):
                 if name == 'adds' and cache == 1 and k in (2, 4):
                     scases.append((scn, cache, k, sig, ('-G',)))        # the GUI variant of the progress / interruption report
                     scases.append((scn, cache, k, sig, ('-h',)))        # with the pre-hash phase
-    pmap(lambda c: signal_case(chk, c[0], slow, c[1], c[2], c[3], model, sstats, c[4]), scases, workers=8)
+    pmap(lambda c: signal_case(chk, c[0], slow, c[1], c[2], c[3], model, sstats, c[4]), scases, workers=8, state=[sstats], chk=chk)
     lap('signals')
     # ---- (c) fix killed at every call, then re-run
     fstats = {}
